@@ -35,8 +35,8 @@ CATEGORY = {
 NO_TLC_CONFIRM = {"SelectOOR"}  # range contract of the library's `with x \in S` helper, no TLA+ expression
 
 
-def cfg_text(tier, seed, body, extra=""):
-    return 'CONSTANTS\n  Tier = "%s"\n  Seed = %d\n%s%s\n' % (tier, seed, extra, body)
+def cfg_text(tier, seed, body, extra="", famlo=1, famhi=0):
+    return 'CONSTANTS\n  Tier = "%s"\n  Seed = %d\n  FamLo = %d\n  FamHi = %d\n%s%s\n' % (tier, seed, famlo, famhi, extra, body)
 
 
 # ------------------------------------------------------------------------------- TLC REPL
@@ -115,8 +115,16 @@ def run_driver(chk, drv, rows_path, rows, out_path, only=None):
 
 # ------------------------------------------------------------------------------- judge
 
-def judge_chunk(specdir, workroot, name, tier, seed, entries, timeout):
-    """entries: list of dict(id, out, str). Returns (verdicts {id: v}, [TLCResult...], unevaluable ids)."""
+def judge_chunk(specdir, workroot, name, tier, seed, entries, timeout, famlo, famhi, base):
+    """entries: list of dict(id, out, str) of the families famlo..famhi, whose first row has id base+1 (the slice of
+    the table generated in this TLC process numbers its rows from 1). Returns (verdicts {id: v}, [TLCResult...],
+    unevaluable ids)."""
+    entries = [dict(e, id=e["id"] - base) for e in entries]
+    v, r, u = _judge_chunk(specdir, workroot, name, tier, seed, entries, timeout, famlo, famhi)
+    return {i + base: x for i, x in v.items()}, r, [i + base for i in u]
+
+
+def _judge_chunk(specdir, workroot, name, tier, seed, entries, timeout, famlo, famhi):
     work = os.path.join(workroot, name)
     V.copy_specs(specdir, work)
     with open(os.path.join(work, "go.ndjson"), "w") as f:
@@ -138,7 +146,7 @@ def judge_chunk(specdir, workroot, name, tier, seed, entries, timeout):
     start = 1
     for _ in range(12):
         with open(os.path.join(work, "OpsJudge.cfg"), "w") as f:
-            f.write(cfg_text(tier, seed, "INIT JInit\nNEXT JNext\nCHECK_DEADLOCK FALSE", "  Start = %d\n" % start))
+            f.write(cfg_text(tier, seed, "INIT JInit\nNEXT JNext\nCHECK_DEADLOCK FALSE", "  Start = %d\n" % start, famlo, famhi))
         res = V.tlc(work, "OpsJudge", cfg="OpsJudge.cfg", workers=1, timeout=timeout, deadlock=False,
                     extra=["-nowarning"])
         results.append(res)
@@ -185,6 +193,8 @@ def run(chk):
     # 1. design level: TLC enumerates the universe and the rows, evaluates every defined row
     with open(os.path.join(work, "MCOpsOracle.cfg"), "w") as f:
         f.write(cfg_text(tier, seed, "INIT OInit\nNEXT ONext\nINVARIANTS PrintCanonical DefinedHasValue\nCHECK_DEADLOCK FALSE"))
+    pool = concurrent.futures.ThreadPoolExecutor(max_workers=2)
+    build = pool.submit(V.build_driver, "c03drv", chk.bindir)
     res = V.tlc(work, "MCOpsOracle", cfg="MCOpsOracle.cfg", workers=1, timeout=1500 if quick else 3000,
                 deadlock=False, extra=["-nowarning"])
     chk.add_tlc("MCOpsOracle (%s): every defined row evaluated by TLC; PrintCanonical, DefinedHasValue" % tier, res)
@@ -201,7 +211,7 @@ def run(chk):
     chk.notes["operators"] = sorted({r["op"] for r in rows})
 
     # 2. the real library
-    drv = V.build_driver("c03drv", chk.bindir)
+    drv = build.result()
     only = None
     if replay:
         want = {(c["op"], c["lam"], c["txt"]) for c in replay["case"]["rows"]}
@@ -234,9 +244,55 @@ def run(chk):
     sample_err = rnd.sample(rest, min(n_err, len(rest)))
     defs = [r for r in rows if r["def"] and r["id"] in results and r["op"] not in ("SelectOOR",)]
     sample_def = rnd.sample(defs, min(n_def, len(defs)))
-    exprs = [r["txt"] for r in confirm + sample_err] + \
+    def forced(t):  # self-equality makes TLC enumerate/normalise the value instead of printing it symbolically
+        return "LET zzv == (%s) IN IF zzv = zzv THEN zzv ELSE zzv" % t
+    exprs = [forced(r["txt"]) for r in confirm + sample_err] + \
             ["(%s) = (%s)" % (r["txt"], fix_minint(r["exp"])) for r in sample_def]
-    answers = repl_eval(exprs, chk.tmp, nproc=8 if quick else 14, timeout=900 if quick else 2400)
+    repl = pool.submit(repl_eval, exprs, chk.tmp, 6 if quick else 12, 900 if quick else 2400)
+
+    # 4. TLC judges every recorded result
+    entries = [dict(id=i, out=results[i]["out"], str=results[i].get("str", "")) for i in sorted(results)]
+    nchunks = 1 if only else (3 if quick else 8)
+    # slices of consecutive families with about the same number of rows
+    fams = sorted({r["fam"] for r in rows})
+    famrows = {f: [] for f in fams}
+    for r in rows:
+        famrows[r["fam"]].append(r["id"])
+    per = max(1, len(rows) // nchunks)
+    slices, cur, n = [], [], 0
+    for f in fams:
+        cur.append(f)
+        n += len(famrows[f])
+        if n >= per and len(slices) < nchunks - 1:
+            slices.append(cur)
+            cur, n = [], 0
+    if cur:
+        slices.append(cur)
+    verdicts, uneval = {}, []
+    with concurrent.futures.ThreadPoolExecutor(max_workers=len(slices)) as ex:
+        futs = []
+        for i, fs in enumerate(slices):
+            lo, hi = fs[0], fs[-1]
+            base = min(famrows[lo]) - 1
+            ids = {j for f in fs for j in famrows[f]}
+            part = [e for e in entries if e["id"] in ids]
+            if not part:
+                continue
+            futs.append(ex.submit(judge_chunk, work, os.path.join(chk.tmp, "judge"), "c%d" % i, tier, seed, part,
+                                  2400 if quick else 6000, lo, hi, base))
+        for i, fu in enumerate(futs):
+            v, ress, un = fu.result()
+            verdicts.update(v)
+            uneval += un
+            for r_ in ress:
+                chk.tlc_jobs.append(r_.summary("OpsJudge slice %d" % i))
+                chk.states += r_.distinct
+                chk.transitions += r_.generated
+    missing = [e["id"] for e in entries if e["id"] not in verdicts]
+    if missing:
+        raise V.Inconclusive("no verdict for %d rows (first %s)" % (len(missing), missing[:5]))
+
+    answers = repl.result()
     tlc_error_confirmed, pessimistic = set(), []
     unanswered = 0
     for r, a in zip(confirm + sample_err, answers[:len(confirm) + len(sample_err)]):
@@ -258,30 +314,10 @@ def run(chk):
         raise V.Inconclusive("row text and table disagree inside TLC (spec inconsistency): %s" % bad_text[:3])
     chk.notes["repl_error_rows_confirmed"] = len(tlc_error_confirmed)
     chk.notes["repl_defined_rows_confirmed"] = len(sample_def)
-    for r in pessimistic:
-        chk.drift.append({"spec": "OpsOracle.tla Def", "row": r["txt"], "note": "TLC evaluates this row although Def predicts an error; row dropped"})
-    dropped = {r["id"] for r in pessimistic}
-
-    # 4. TLC judges every recorded result
-    entries = [dict(id=i, out=results[i]["out"], str=results[i].get("str", "")) for i in sorted(results) if i not in dropped]
-    nchunks = 1 if only else (3 if quick else 10)
-    nchunks = max(1, min(nchunks, len(entries) // 50 or 1))
-    parts = [entries[i::nchunks] for i in range(nchunks)]
-    verdicts, uneval = {}, []
-    with concurrent.futures.ThreadPoolExecutor(max_workers=nchunks) as ex:
-        futs = [ex.submit(judge_chunk, work, os.path.join(chk.tmp, "judge"), "c%d" % i, tier, seed, p,
-                          2400 if quick else 6000) for i, p in enumerate(parts)]
-        for i, fu in enumerate(futs):
-            v, ress, un = fu.result()
-            verdicts.update(v)
-            uneval += un
-            for r_ in ress:
-                chk.tlc_jobs.append(r_.summary("OpsJudge chunk %d" % i))
-                chk.states += r_.distinct
-                chk.transitions += r_.generated
-    missing = [e["id"] for e in entries if e["id"] not in verdicts]
-    if missing:
-        raise V.Inconclusive("no verdict for %d rows (first %s)" % (len(missing), missing[:5]))
+    for r in pessimistic:   # not judged: the table's prediction for this row is wrong
+        chk.drift.append({"spec": "OpsOracle.tla Def", "row": r["txt"],
+                          "note": "TLC evaluates this row although Def predicts an error; row not judged"})
+        verdicts.pop(r["id"], None)
 
     # 5. report
     counts = {}
